@@ -1,6 +1,7 @@
 """C16 - C-FIND returns exactly the matches the SCP produced, in order, then stops."""
 from __future__ import annotations
 
+import contextlib
 import warnings
 
 from hypothesis import strategies as st
@@ -134,8 +135,13 @@ def scu_case(value):
             'final': final, 'msg_id': msg_id, 'via': via}
     ts = TSS[ts_i]
     state = {}
+    # a second association of the same process, alive at the same time, negotiated differently for the same class
+    # (other transfer syntax, other context ID): what was negotiated there has no bearing on this one
+    second = via == 'get_scu' and msg_id % 5 in (0, 3)
+    ts_other = TSS[(ts_i + 1) % len(TSS)]
+    state_other = {}
 
-    def responder(dul, rec):
+    def responder(dul, rec, ts=ts, state=state):
         if rec['kind'] == 'pdu':
             t = rec['spec'].get('t')
             if t == 1:
@@ -163,7 +169,10 @@ def scu_case(value):
             out.append((lambda f=f: fd.incoming_msg(dul, f, None, pc)))
             return out
         return []
-    fac = fd.Factory([lambda d: setattr(d, 'responder', responder)])
+    def responder_other(dul, rec):
+        return responder(dul, rec, ts_other, state_other)
+    fac = fd.Factory([lambda d: setattr(d, 'responder', responder), lambda d: setattr(d, 'responder', responder_other)])
+    got_other = []
     remote = {'aet': 'SRV', 'address': 'peer.example', 'port': 104}
     got = []
     try:
@@ -178,7 +187,14 @@ def scu_case(value):
                 early = msg_id % 3 == 1
                 if early:
                     ae.add_scu(sopclass.verification_scu)
-                with ae.request_association(remote) as assoc:
+                with contextlib.ExitStack() as stack:
+                    assoc = stack.enter_context(ae.request_association(remote))
+                    if second:
+                        ae2 = applicationentity.ClientAE('CLI2', [ts_other])
+                        ae2.timeout = 0.01
+                        ae2.add_scu(sopclass.verification_scu)
+                        ae2.add_scu(getattr(sopclass, service_name), [sop])
+                        other = stack.enter_context(ae2.request_association(remote))
                     results = assoc.get_scu(sop)(to_file_ds(query) if msg_id % 4 == 2 else to_ds(query), msg_id)
                     if early:
                         # the query is prepared, another operation is carried out on the association, and only then
@@ -196,6 +212,9 @@ def scu_case(value):
                         state['requery'] = svc.enc_ds(nxt, svc.EXPLICIT)
                         for _ in assoc.get_scu(sop)(nxt, (msg_id + 1) & 0xFFFF):
                             pass
+                    if second:
+                        for ds, status in other.get_scu(sop)(to_ds(query), 7):
+                            got_other.append((ds, int(status)))
     except Violation:
         raise
     except Exception as exc:
@@ -204,6 +223,9 @@ def scu_case(value):
     rq = state.get('rq')
     if rq is None:
         raise Violation('%s:scu:no-request' % PROP, 'no C-FIND-RQ was sent', case)
+    if rq['pc_ids'][0] not in dul.accepted_contexts:
+        raise Violation('%s:scu:context' % PROP, 'the C-FIND-RQ went out on presentation context %r, which was not accepted '
+                        'on this association (accepted: %r)' % (rq['pc_ids'][0], sorted(dul.accepted_contexts)), case)
     rq_ts = str(dul.accepted_contexts[rq['pc_ids'][0]].supported_ts)
     if not svc.wire_ds_equal(rq['data'] or b'', rq_ts, to_ds(query)) or rq['fields'].get(0x0002) != sop:
         raise Violation('%s:scu:query' % PROP, 'identifier / SOP class of the C-FIND-RQ differ from what the caller gave', case)
@@ -223,6 +245,21 @@ def scu_case(value):
             raise Violation('%s:scu:requery' % PROP, 'second query (a received match, edited by the caller): identifier on the '
                             'wire differs from the data set the caller passed', case)
     want = [(m, code) for m, code in matches] + [(None, final)]
+    if second:
+        rq2 = state_other.get('rq')
+        d2 = fac.instances[1]
+        ok = rq2 is not None and rq2['fields'].get(0x0002) == sop and rq2['pc_ids'][0] in d2.accepted_contexts
+        if ok:
+            ts2 = str(d2.accepted_contexts[rq2['pc_ids'][0]].supported_ts)
+            ok = ts2 == ts_other and svc.wire_ds_equal(rq2['data'] or b'', ts2, to_ds(query))
+        if not ok:
+            raise Violation('%s:scu:second-association:query' % PROP, 'a second association negotiated %s for the class (the '
+                            'first one %s): its C-FIND-RQ does not carry the query on its own context in its own transfer '
+                            'syntax' % (ts_other, ts), case)
+        if [c for _, c in got_other] != [c for _, c in want] or \
+                any(m is not None and (ds is None or not svc.ds_equal(ds, to_ds(m))) for (m, _), (ds, _c) in zip(want, got_other)):
+            raise Violation('%s:scu:second-association:results' % PROP, 'the second association (negotiated %s) did not '
+                            'receive exactly what its peer sent' % ts_other, case)
     if len(got) != len(want):
         raise Violation('%s:scu:count' % PROP, 'peer sent %d pending + 1 final response, caller received %d items (statuses %r)'
                         % (len(matches), len(got), ['%04X' % g_[1] for g_ in got]), case)
@@ -294,7 +331,7 @@ def run(ctx):
                 '(odd-length values, long descriptions), 3 transfer syntaxes, maximum PDU lengths down to 32 bytes; '
                 'provider side through qr_find_scp / modality_work_list_scp (wire read by the reference codecs), user '
                 'side through qr_find_scu / modality_work_list_scu / the c_find() wrapper against a scripted peer with '
-                'final status success/failure/cancel, counting every receive() call; provider handler failing after k matches; provider handler filling in and yielding the query object itself; the caller editing a received match and sending it as the next query; a query prepared, a C-ECHO carried out, and only then the results iterated; identifiers given as FileDataset objects (as read from files); '
+                'final status success/failure/cancel, counting every receive() call; provider handler failing after k matches; provider handler filling in and yielding the query object itself; the caller editing a received match and sending it as the next query; a query prepared, a C-ECHO carried out, and only then the results iterated; identifiers given as FileDataset objects (as read from files); a second requested association alive meanwhile that negotiated another transfer syntax and context ID for the same class; '
                 'non-trivial = >=2 matches, mixed pending codes or a multi-fragment response')
     ctx.assumptions = ['matches carry only pending statuses (a non-pending status supplied by the handler is outside the statement)',
                        'loopback composition of both sides is exercised by C20/C15 style checks, not here']
